@@ -1,13 +1,30 @@
 """C10 correspondence: over successive ceremonies accepted SKRs form one unbroken, authentic timeline.
 
-Histories are trees of ceremonies over the seven example schemas of /repo/config/ksrsigner.yaml x six KSR variants
-(honest successor, replayed request, gapped, re-keyed, wrong first keys, late), every transition executed on the real
+Histories are trees of ceremonies over the seven example schemas of /repo/config/ksrsigner.yaml x KSR variants
+(honest successor, replayed request, gapped, re-keyed, wrong first keys, late, …), every transition executed on the real
 `ksrsigner()` entry point with the REAL previous output file as input (nine bundles, two 2048-bit KSKs on the
 emulated token, ZSK roll per quarter as the reference client does).  Per step:
   * outcome, token operations and written SKR must equal the model's (`ksrsigner` op, previous SKR parsed from the
     actual previous file) — "the outcome equals that of the documented rules applied to the actual previous output";
-  * every emitted SKR must load and validate (`load_skr`) as the previous SKR of the next ceremony;
+  * every emitted SKR must load and validate (`load_skr`) as the previous SKR of the next ceremony, and the WHOLE file at
+    the output path must be exactly one SKR document: read with ElementTree (a strict parser: nothing may follow `</KSR>`)
+    it must equal the SKR the model writes, pass the independent judge `ceremony_run.skr_problems` (dnspython over
+    exactly the published keys of each bundle, schema roles by slot NUMBER, request and ZSK policy echoed), and —
+    depth-1 honest transitions — be byte-identical to what the same ceremony writes to a fresh path;
   * the neighbour relation of the property is evaluated independently on every accepted pair.
+Around every transition three things rotate that must not matter:
+  * what lies at the output path before the run: nothing, a short file, a 300 kB file, the previous quarter's SKR (one
+    path re-used quarter after quarter: sometimes longer, sometimes shorter than the new SKR), the previous SKR made longer;
+    a refused ceremony must leave exactly those bytes;
+  * where the previous SKR's name comes from: `filenames.previous_skr`, `--previous_skr`, or both (the configuration then
+    names the stale SKR before the previous one; the command line wins);
+  * the order in which the schema's slots are LISTED in the configuration (every other transition lists them shuffled).
+POLICY-CHANGE histories (`policy_change_stream`): the ZSK operator's declared Min/MaxValidityOverlap CHANGES between
+consecutive KSRs (both relaxed, both tightened, only the maximum, only the minimum, each way), the previous SKR therefore
+echoes OTHER bounds than the new KSR declares, and the chain overlap sits on the lattice {-1 s, 0, +1 s} around every old
+and new bound that changed plus the midpoints between old and new; publish safety is PT0S there so that the later
+publish-safety check cannot mask the verdict.  Expected verdict = the documented rule: the overlap lies within the bounds
+declared IN THE NEW KSR (must-refuse cases signed and must-accept cases refused are both failing inputs).
 States are memoised: a refused ceremony leaves the state unchanged, so its subtree is its parent's.
 """
 
@@ -31,8 +48,9 @@ DRIVER = C.DRIVER
 ASSUMPTIONS = [
     "the token emulator stands in for a PKCS#11 device",
     "histories are explored to depth 3 (quick: sampled at depth 3; thorough: depth 4 sampled) — the unbounded statement is the Lean theorem C10_timeline",
+    "the byte-for-byte comparison of a re-used output path with a fresh one relies on RSA PKCS#1 v1.5 signatures being deterministic and on set iteration order being stable within one process",
 ]
-TRUSTED = ["harness/p11emu.py token emulator", "harness/ceremony_run.py entry-point driver"]
+TRUSTED = ["harness/p11emu.py token emulator", "harness/ceremony_run.py entry-point driver and independent SKR judge (ElementTree, dnspython)"]
 
 VARIANTS = ["honest", "replayed", "gapped", "re-keyed", "wrong-first-keys", "late", "gap-declared-negative-min", "re-keyed-same-ids", "honest-stale-config-prev", "replayed-stale-config-prev"]
 T0 = datetime(2024, 1, 1, tzinfo=timezone.utc)
@@ -134,15 +152,122 @@ def neighbour_broken(prev_xml: bytes, ksr_req: Any, new_xml: bytes) -> list[str]
     return bad
 
 
-def run(tier: str, driver_ok: bool) -> Result:
+def judge_written(res: Result, work: Path, o: dict[str, Any], case: dict[str, Any], sc: S.Scenario, ksr_xml: str | None, prev_skr: bytes | None, variant: str) -> None:
+    """Every emitted SKR: loadable as the next previous SKR, exactly one SKR document acceptable to an independent validator,
+    and a neighbour of the SKR before it."""
     from kskm.common.config_misc import ResponsePolicy
     from kskm.skr.load import load_skr
 
+    new_xml = o["file_after"]
+    p = work / "reload.xml"
+    p.write_bytes(new_xml)
+    rl = lib.run_impl(lambda: load_skr(p, ResponsePolicy(num_bundles=9)))
+    if "ok" not in rl:
+        res.violation("an emitted SKR is not loadable as a previous SKR", case, key="reload", outcome=rl, bytes_at_output_path=len(new_xml), bytes_there_before=None if o.get("preexisting") is None else len(o["preexisting"]))
+    bad = R.skr_problems(new_xml, num_bundles=9, roles=R.roles_of(sc), request_xml=ksr_xml if ksr_xml is not None else C.request_to_xml(sc.request()))
+    if bad:
+        res.violation("an emitted SKR is rejected by the independent validator (whole file, ElementTree + dnspython)", case, key="independent:" + variant, problems=bad[:6])
+    if prev_skr is not None and not (bad and bad[0].startswith("not one well-formed")):
+        broken = neighbour_broken(prev_skr, sc.request(), new_xml)
+        if broken:
+            res.violation("accepted SKRs are not neighbours on one timeline", case, key=broken[0].split()[0] + ":" + variant, broken=broken)
+
+
+def overlap_profiles() -> dict[str, tuple[timedelta, timedelta]]:
+    d = timedelta(days=1)
+    # every profile contains the 11 days by which the bundles of one KSR overlap each other
+    return {"narrow": (10 * d, 12 * d), "wide": (6 * d, 16 * d), "low": (6 * d, 12 * d), "high": (10 * d, 16 * d)}
+
+
+def declare_overlap(sc: S.Scenario, lo: timedelta, hi: timedelta) -> str:
+    """The scenario's honest KSR with other declared Min/MaxValidityOverlap (the policy is not covered by any signature)."""
+    rq = sc.request()
+    return C.request_to_xml(rq.replace(zsk_policy=rq.zsk_policy.replace(min_validity_overlap=lo, max_validity_overlap=hi)))
+
+
+def policy_change_stream(res: Result, runs: list[dict[str, Any]], work: Path, schemas: dict[str, Any], tier: str) -> None:
+    """Histories in which the declared overlap bounds change between consecutive KSRs (see the module docstring)."""
+    prof = overlap_profiles()
+    sec = timedelta(seconds=1)
+    free = {"ksk_policy_extra": {"publish_safety": "PT0S"}}  # nothing but the chain overlap decides
+    boots: dict[str, tuple[bytes, S.Scenario]] = {}
+    for name, (lo, hi) in prof.items():
+        boot = scenario_for(0, schemas["normal"], "honest", 0)
+        boot.req_id = "req-q0-" + name
+        xml = declare_overlap(boot, lo, hi)
+        o = R.run_ceremony(boot, work, answer="Yes", ksr_xml=xml, **free)
+        o["case"] = {"path": [], "schema": "normal", "variant": "bootstrap", "declared_overlap_days": [lo.days, hi.days]}
+        runs.append(o)
+        res.count(o["case"])
+        if not o["written"]:
+            res.violation("bootstrap ceremony did not succeed", o["case"], key="bootstrap:" + name, outcome=o["outcome"])
+            continue
+        judge_written(res, work, o, o["case"], boot, xml, None, "bootstrap")
+        boots[name] = (o["file_after"], boot)
+    changes = [("narrow", "wide"), ("wide", "narrow"), ("narrow", "high"), ("high", "narrow"), ("narrow", "low"), ("low", "narrow")]
+    k = 0
+    for old, new in changes:
+        if old not in boots:
+            continue
+        prev_xml, boot = boots[old]
+        (lo0, hi0), (lo1, hi1) = prof[old], prof[new]
+        overlaps: list[timedelta] = []
+        for b0, b1 in ((lo0, lo1), (hi0, hi1)):
+            if b0 != b1:
+                overlaps += [b0 - sec, b0, b0 + sec, b1 - sec, b1, b1 + sec, (b0 + b1) / 2]
+        if tier != "quick":
+            overlaps += [timedelta(days=11), lo1 - timedelta(days=1), hi1 + timedelta(days=1)]
+        prev_last_exp = boot.start + timedelta(days=101)
+        for ov in overlaps:
+            sc = scenario_for(1, schemas["normal"], "honest", 0, prev_last_exp, boot.req_id)
+            sc.start = prev_last_exp - ov
+            sc.req_id = f"req-q1-{old}-to-{new}"
+            xml = declare_overlap(sc, lo1, hi1)
+            mode = R.PREV_MODES[k % 2]  # configuration / command line
+            k += 1
+            src = {"prev_xml": prev_xml.decode()} if mode == "config" else {"prev_cli_xml": prev_xml.decode()}
+            pre_tag, pre = R.output_files(earlier_skr=prev_xml)[k % 5]
+            o = R.run_ceremony(sc, work, answer="Yes", ksr_xml=xml, preexisting=pre, **src, **free)
+            case = {
+                "path": [f"normal/declares-{old}"], "schema": "normal", "variant": f"policy-change:{old}->{new}", "quarter": 1,
+                "previous_skr_echoes_overlap_days": [lo0.days, hi0.days], "ksr_declares_overlap_days": [lo1.days, hi1.days], "chain_overlap_seconds": ov.total_seconds(),
+                "previous_skr_named_in": mode, "output_path_before": pre_tag,
+            }
+            o["case"] = case
+            runs.append(o)
+            res.count(case)
+            res.bump(f"variant:policy-change:{old}->{new}")
+            out = o["outcome"]
+            ok = out == {"ok": True}
+            # the documented rule (C08/C10): the previous last expiration minus the KSR's first inception lies within the bounds the KSR declares
+            want = lo1 <= ov <= hi1
+            res.bump("policy-change:" + ("must-accept" if want else "must-refuse") + (":between-old-and-new-bound" if (lo0 <= ov <= hi0) != want else ""))
+            if ok != o["written"]:
+                res.violation("result and write disagree", case, key="write", outcome=out)
+            if ok and not want:
+                res.violation("a KSR whose chain overlap lies outside the bounds it declares was signed (the previous SKR echoes other bounds)", case, key="accepted:policy-change", outcome=out, sign_ops=o["sign_ops"])
+            if not ok and want:
+                res.violation("an honest successor whose chain overlap lies within the bounds it declares was refused (the previous SKR echoes other bounds)", case, key="refused:policy-change", outcome=out)
+            if not ok and o["sign_ops"]:
+                res.violation("private-key operations for a KSR that does not chain", case, key="early-sign:policy-change", outcome=out, sign_ops=o["sign_ops"])
+            if not o["written"] and o["file_after"] != pre:
+                res.violation("a refused ceremony did not leave the output path as it was", case, key="clobbered:" + pre_tag, outcome=out)
+            if o["written"]:
+                judge_written(res, work, o, case, sc, xml, prev_xml, "policy-change")
+            if not any(isinstance(x, dict) and str(x.get("case", {}).get("variant", "")).startswith("policy-change") for x in res.samples) and (lo0 <= ov <= hi0) != want:
+                res.sample({"case": case, "outcome": out, "documented_rule_accepts": want}, limit=6)
+
+
+def run(tier: str, driver_ok: bool) -> Result:
     res = Result("C10")
     res.rule = (
-        "tree of ceremonies over 7 example schemas x 6 KSR variants from a bootstrap 'normal' quarter; depth 1 and 2 complete for the honest "
+        "tree of ceremonies over 7 example schemas x 10 KSR variants from a bootstrap 'normal' quarter; depth 1 and 2 complete for the honest "
         "variant, all variants at every visited state for a rotating schema, depth 3 (thorough: 4) sampled; states memoised (a refused ceremony "
-        "leaves the state unchanged); non-trivial = distinct (path, schema, variant)"
+        "leaves the state unchanged); rotating around every transition: bytes at the output path before the run (absent / short / 300 kB / previous "
+        "SKR / previous SKR made longer), source of the previous SKR's name (configuration / command line / both with a stale file configured), "
+        "listing order of the schema's slots; depth-1 honest transitions also to a fresh path (byte-identical); policy-change histories: declared "
+        "Min/MaxValidityOverlap changes between consecutive KSRs (6 old->new profile pairs) x chain overlap on {-1s,0,+1s} around each changed old and "
+        "new bound and their midpoint, publish safety PT0S; non-trivial = distinct (path, schema, variant, overlap, rotation)"
     )
     r = lib.rng("C10")
     schemas = example_schemas()
@@ -160,6 +285,7 @@ def run(tier: str, driver_ok: bool) -> Result:
         if not o["written"]:
             res.violation("bootstrap ceremony did not succeed", o["case"], key="bootstrap", outcome=o["outcome"])
             return res
+        judge_written(res, work, o, o["case"], boot, None, None, "bootstrap")
         root = Quarter(o["file_after"], 0, ("normal",), boot.start + timedelta(days=101))
         frontier = [root]
         depth_max = 3 if tier == "quick" else 4
@@ -180,6 +306,11 @@ def run(tier: str, driver_ok: bool) -> Result:
                         break
                     executed += 1
                     sc = scenario_for(q, schemas[sname], variant, st.q, st.last_exp, st.req_id)
+                    if executed % 2:
+                        # the configuration lists the schema's slots in another order; the slot NUMBER decides
+                        sc.schema_listing = sorted(sc.schema)
+                        while sc.schema_listing == sorted(sc.schema):
+                            r.shuffle(sc.schema_listing)
                     ksr_xml = None
                     if variant == "gap-declared-negative-min":
                         # the repository's duration reader adds a trailing integer as seconds: "P0D-86400" is minus one day
@@ -187,24 +318,36 @@ def run(tier: str, driver_ok: bool) -> Result:
                         a0 = ksr_xml.index("<MinValidityOverlap>")
                         a1 = ksr_xml.index("</MinValidityOverlap>")
                         ksr_xml = ksr_xml[:a0] + "<MinValidityOverlap>P0D-86400" + ksr_xml[a1:]
+                    # what lies at the output path before the run (the previous quarter's SKR: one path re-used every quarter)
+                    pre_tag, pre = R.output_files(earlier_skr=st.skr_xml)[executed % 5]
                     if variant.endswith("stale-config-prev"):
                         # the configuration still names the SKR before the previous one; the command line names the right file
                         if st.parent_xml is None:
                             continue
-                        o = R.run_ceremony(sc, work, answer="Yes", prev_xml=st.parent_xml.decode(), prev_cli_xml=st.skr_xml.decode(), ksr_xml=ksr_xml)
+                        mode = "both"
+                        src = {"prev_xml": st.parent_xml.decode(), "prev_cli_xml": st.skr_xml.decode()}
                     else:
-                        o = R.run_ceremony(sc, work, answer="Yes", prev_xml=st.skr_xml.decode(), ksr_xml=ksr_xml)
-                    case = {"path": list(st.path), "schema": sname, "variant": variant, "quarter": q}
+                        mode = R.PREV_MODES[executed % 3]
+                        if mode == "both" and st.parent_xml is None:
+                            mode = "cli"
+                        src = {"config": {"prev_xml": st.skr_xml.decode()}, "cli": {"prev_cli_xml": st.skr_xml.decode()}, "both": {"prev_cli_xml": st.skr_xml.decode(), "prev_xml": (st.parent_xml or b"").decode()}}[mode]
+                    o = R.run_ceremony(sc, work, answer="Yes", ksr_xml=ksr_xml, preexisting=pre, **src)
+                    case = {"path": list(st.path), "schema": sname, "variant": variant, "quarter": q, "previous_skr_named_in": mode, "output_path_before": pre_tag, "slots_listed": sc.schema_listing or "ascending"}
                     o["case"] = case
                     runs.append(o)
                     res.count(case)
                     res.bump("variant:" + variant)
                     res.bump("schema:" + sname)
+                    res.bump("previous-skr-source:" + mode)
+                    res.bump("output-path-before:" + pre_tag)
+                    res.bump("schema-listing:" + ("shuffled" if sc.schema_listing else "ascending"))
                     out = o["outcome"]
                     ok = out == {"ok": True}
                     res.bump("outcome:" + ("accepted" if ok else str(next(iter(out.values())))))
                     if ok != o["written"]:
                         res.violation("result and write disagree", case, key="write", outcome=out)
+                    if not o["written"] and o["file_after"] != pre:
+                        res.violation("a refused ceremony did not leave the output path as it was", case, key="clobbered:" + pre_tag, outcome=out)
                     if variant == "honest":
                         honest_outcome[sname] = out
                     if variant == "honest-stale-config-prev" and sname in honest_outcome and not lib.same_outcome(out, honest_outcome[sname]):
@@ -215,14 +358,13 @@ def run(tier: str, driver_ok: bool) -> Result:
                     if o["written"]:
                         new_xml = o["file_after"]
                         # every emitted SKR must be loadable and acceptable as the next previous SKR
-                        p = work / "reload.xml"
-                        p.write_bytes(new_xml)
-                        rl = lib.run_impl(lambda: load_skr(p, ResponsePolicy(num_bundles=9)))
-                        if "ok" not in rl:
-                            res.violation("an emitted SKR is not loadable as a previous SKR", case, key="reload", outcome=rl)
-                        bad = neighbour_broken(st.skr_xml, sc.request(), new_xml)
-                        if bad:
-                            res.violation("accepted SKRs are not neighbours on one timeline", case, key=bad[0].split()[0] + ":" + variant, broken=bad)
+                        judge_written(res, work, o, case, sc, ksr_xml, st.skr_xml, variant)
+                        if depth == 1 and variant == "honest":
+                            # the same ceremony to a fresh path: what is found at a re-used path must not show in the result at all
+                            twin = R.run_ceremony(sc, work, answer="Yes", ksr_xml=ksr_xml, preexisting=None, **src)
+                            res.bump("fresh-path twin")
+                            if twin["file_after"] != new_xml:
+                                res.violation("the SKR at a re-used output path differs from the one the same ceremony writes to a fresh path", case, key="fresh-path:" + pre_tag, bytes_at_reused_path=len(new_xml), bytes_at_fresh_path=None if twin["file_after"] is None else len(twin["file_after"]))
                         nxt.append(Quarter(new_xml, q, st.path + (f"{sname}/{variant}",), sc.start + timedelta(days=101), sc.req_id, st.skr_xml))
                     if len(res.samples) < 3 and (ok or variant == "gapped"):
                         res.sample({"case": case, "outcome": out, "token_ops": len(o["log"])})
@@ -232,6 +374,7 @@ def run(tier: str, driver_ok: bool) -> Result:
             frontier = nxt
             if not frontier:
                 break
+        policy_change_stream(res, runs, work, schemas, tier)
         if driver_ok:
             with_line = [x for x in runs if "line" in x]
             outs = lib.run_driver([x["line"] for x in with_line], exe=DRIVER)
@@ -258,10 +401,17 @@ def run(tier: str, driver_ok: bool) -> Result:
                         same = True
                     if not same:
                         res.disagreement("model writes a different SKR", x["case"], x["outcome"], m["result"])
+                    # the WHOLE file as an independent XML parser reads it (bundles in document order), not a readable prefix of it
+                    try:
+                        whole = S.response_sorted_j(R.skr_document(x["file_after"]))
+                    except Exception:  # noqa: BLE001  (reported as a violation by judge_written)
+                        whole = None
+                    if whole is not None and S.response_sorted_j(writes[0]) != whole:
+                        res.disagreement("the file at the output path is not exactly the SKR the model writes", x["case"], x["outcome"], m["result"])
     finally:
         R.cleanup(work)
     return res
 
 
 def replay(obj: dict[str, Any]) -> Any:
-    return {"recorded": obj, "note": "cases are (path of accepted ceremonies, schema, variant); re-run ./check C10 with the same VERIF_SEED"}
+    return {"recorded": obj, "note": "cases are (path of accepted ceremonies, schema, variant, chain overlap, rotation of output-path content / previous-SKR source / slot listing); re-run ./check C10 with the same VERIF_SEED"}
